@@ -465,7 +465,9 @@ def run_one(ck, prog):
             elif isinstance(idx, tuple) and idx[0] == "var":
                 defs_ = [strip_casts(d) for d in tctx.prov.expand(idx)]
                 counter = len(defs_) == 2 and any(fold(d) == 0 for d in defs_) and any(isinstance(d, tuple) and d[0] == "bin" and d[1] in ("Add", "AddWithOverflow") and fold(d[3]) == 1 and canon(strip_casts(d[2])) == canon(idx) for d in defs_)
-                same_pos = counter and any(z[0] == "index" and canon(strip_casts(z[2])) == canon(idx) for z in walk_deep(val, tctx.prov, limit=30))
+                same_pos = counter and any((z[0] == "index" and canon(strip_casts(z[2])) == canon(idx)) or
+                                           (z[0] == "call" and (z[1] or "").endswith(("::get_unchecked", "Index::index")) and len(z[2]) == 2 and canon(strip_casts(z[2][1])) == canon(idx))
+                                           for z in walk_deep(val, tctx.prov, limit=30))
             ck.ob("C14.6", "dirent-name|byte-i-to-position-i-while-not-nul", nonzero and same_pos, fn=tb["path"], site=tctx.site(bb_),
                   detail=f"name[i] must receive the record's i-th name byte and only under `byte != 0` (compared byte by byte): value {show(val)[:80]}, index {show(idx)[:80] if idx is not None else None}, nonzero-guard={nonzero}")
     ft = [f for p, f in prog.fns.items() if p.startswith("tiny_std::fs::DirEntry::<") and p.endswith("::file_type")]
